@@ -261,13 +261,29 @@ func (l *lexer) consume(end int) (b6.Expression, string) {
 }
 
 func (l *lexer) lexStringLiteral(yylval *yySymType) int {
+	// UnparseString prints strings with Go's %q, so read the escape sequences
+	// it writes: a backslash escapes the following character (in particular
+	// \" doesn't end the string), and the token is unquoted with Go's rules.
+	// A token that isn't a valid Go string literal (eg "C:\dir") is taken
+	// verbatim, as it always was.
 	i := l.Index + 1
+	escaped := false
 	for i < len(l.Expression) {
 		r, w := utf8.DecodeRuneInString(l.Expression[i:])
 		i += w
-		if r == '"' {
+		if r == '\\' && i < len(l.Expression) {
+			_, w := utf8.DecodeRuneInString(l.Expression[i:])
+			i += w
+			escaped = true
+		} else if r == '"' {
 			e, token := l.consume(i)
-			e.AnyExpression = b6.NewStringExpression(token[1 : len(token)-1]).AnyExpression
+			value := token[1 : len(token)-1]
+			if escaped {
+				if unquoted, err := strconv.Unquote(token); err == nil {
+					value = unquoted
+				}
+			}
+			e.AnyExpression = b6.NewStringExpression(value).AnyExpression
 			yylval.e = e
 			return STRING
 		}
